@@ -286,6 +286,9 @@ impl Drop for Sandbox {
 }
 
 /// Build a `Config` exactly as a front-end does (C ABI), with the user directory frozen to `sb`.
+/// update-engine calls made with the SAME configuration object, modified through its setters
+pub static CONFIG_OBJECTS_KEPT: std::sync::atomic::AtomicU64 = std::sync::atomic::AtomicU64::new(0);
+
 pub fn mk_config(o: &Opts, sb: &Sandbox) -> Box<Config> {
     mk_config_at(o, sb.base())
 }
@@ -655,18 +658,18 @@ pub struct Ctx {
     pub opts: Opts,
     pub cfg: Box<Config>,
     pub ctx: RitiContext,
+    /// XDG base the configuration object was created under
+    base: PathBuf,
 }
 
 impl Ctx {
     pub fn new(opts: Opts, sb: &Sandbox) -> Result<Ctx, PanicInfo> {
-        let cfg = mk_config(&opts, sb);
-        let ctx = guarded(|| RitiContext::new_with_config(&cfg))?;
-        Ok(Ctx { opts, cfg, ctx })
+        Ctx::new_at(opts, sb.base())
     }
     pub fn new_at(opts: Opts, base: &Path) -> Result<Ctx, PanicInfo> {
         let cfg = mk_config_at(&opts, base);
         let ctx = guarded(|| RitiContext::new_with_config(&cfg))?;
-        Ok(Ctx { opts, cfg, ctx })
+        Ok(Ctx { opts, cfg, ctx, base: base.to_path_buf() })
     }
     pub fn key_raw(&self, key: u16, modifier: u8, sel: u8) -> Result<Suggestion, PanicInfo> {
         ENGINE_EVENTS.fetch_add(1, Ordering::Relaxed);
@@ -693,12 +696,59 @@ impl Ctx {
     pub fn ongoing(&self) -> bool {
         self.ctx.ongoing_input_session()
     }
+    /// update-engine with a new configuration.  A front-end either builds a new configuration object or keeps
+    /// its object and calls the setters that changed (or all of them) before update-engine; both happen here,
+    /// chosen deterministically from the pair (old options, new options).  The object can only be kept when
+    /// the user directory and the presence of the data directory are the same (both are fixed at creation).
     pub fn update(&mut self, opts: Opts, sb: &Sandbox) -> Result<(), PanicInfo> {
         ENGINE_EVENTS.fetch_add(1, Ordering::Relaxed);
-        let cfg = mk_config(&opts, sb);
-        let ctx = &mut self.ctx;
-        guarded(|| ctx.update_engine(&cfg))?;
-        self.cfg = cfg;
+        let h = {
+            use std::hash::{Hash, Hasher};
+            let mut hs = std::collections::hash_map::DefaultHasher::new();
+            (self.opts, opts).hash(&mut hs);
+            hs.finish() as usize
+        };
+        let keep = sb.base() == self.base.as_path() && self.opts.nodata == opts.nodata && h % 2 == 0;
+        if keep {
+            let c: *mut Config = &mut *self.cfg;
+            let (old, only_changed) = (self.opts, (h / 2) % 2 == 0);
+            unsafe {
+                if old.layout != opts.layout || !only_changed {
+                    let l = CString::new(opts.layout.path()).unwrap();
+                    assert!(riti_config_set_layout_file(c, l.as_ptr()), "layout path rejected");
+                }
+                let setters: [(bool, &dyn Fn()); 11] = [
+                    (old.english != opts.english, &|| riti_config_set_suggestion_include_english(c, opts.english)),
+                    (old.psug != opts.psug, &|| riti_config_set_phonetic_suggestion(c, opts.psug)),
+                    (old.fsug != opts.fsug, &|| riti_config_set_fixed_suggestion(c, opts.fsug)),
+                    (old.vowel != opts.vowel, &|| riti_config_set_fixed_auto_vowel(c, opts.vowel)),
+                    (old.chandra != opts.chandra, &|| riti_config_set_fixed_auto_chandra(c, opts.chandra)),
+                    (old.kar != opts.kar, &|| riti_config_set_fixed_traditional_kar(c, opts.kar)),
+                    (old.reph != opts.reph, &|| riti_config_set_fixed_old_reph(c, opts.reph)),
+                    (old.numpad != opts.numpad, &|| riti_config_set_fixed_numpad(c, opts.numpad)),
+                    (old.karorder != opts.karorder, &|| riti_config_set_fixed_old_kar_order(c, opts.karorder)),
+                    (old.ansi != opts.ansi, &|| riti_config_set_ansi_encoding(c, opts.ansi)),
+                    (old.smart != opts.smart, &|| riti_config_set_smart_quote(c, opts.smart)),
+                ];
+                let (rot, rev) = ((h / 4) % 11, (h / 44) % 2 == 1);
+                for i in 0..11 {
+                    let j = (i + rot) % 11;
+                    let (changed, f) = setters[if rev { 10 - j } else { j }];
+                    if changed || !only_changed {
+                        f();
+                    }
+                }
+            }
+            let (ctx, cfg) = (&mut self.ctx, &self.cfg);
+            guarded(|| ctx.update_engine(cfg))?;
+            CONFIG_OBJECTS_KEPT.fetch_add(1, Ordering::Relaxed);
+        } else {
+            let cfg = mk_config(&opts, sb);
+            let ctx = &mut self.ctx;
+            guarded(|| ctx.update_engine(&cfg))?;
+            self.cfg = cfg;
+            self.base = sb.base().to_path_buf();
+        }
         self.opts = opts;
         Ok(())
     }
